@@ -308,7 +308,7 @@ class Gen:
             lens = [0, 1, 2, 3, 7, 40, 300, 301, 4294967295] + ([n, n + 1] if n is not None else [])
             st = ('num', r.choice(starts)) if r.random() < 0.8 else ('s1', 'len', self.gen_str(0, sub, True))
             ln = ('num', r.choice(lens)) if r.random() < 0.8 else self.gen_expr('int', 0, sub, True)
-            if ln[0] != 'num':
+            if ln[0] != 'num' or not 0 <= ln[1] <= 4294967295:
                 # a computed length must not be negative: x*x mod 7 (0..6) -- both engines agree on % of a non-negative number
                 ln = ('bin', 'mod', ('bin', 'mul', ln, ln), ('num', 7)) if ln[0] == 'var' else ('num', 3)
             self.f('str_substring')
